@@ -797,10 +797,15 @@ theorem adjustString_hasNul (s : List UInt8) (h : hasNul s = true) : hasNul (adj
   rw [hr]
   simp [hasNul]
 
+theorem name_core (s : Sample) (sus sue : Int) :
+    (if sus ≥ s.len ∨ sus ≥ sue then
+       (({ s with fsloop := false, fsloopBidir := false } : Sample), ({ sus := 0, sue := 0 } : Xtra))
+     else (s, { sus := sus, sue := sue })).1.name = s.name := by
+  split <;> rfl
+
 theorem epilogueSmp_name (s : Sample) (x : Xtra) : (epilogueSmp s x).1.name = s.name := by
   unfold epilogueSmp
-  simp only
-  split <;> rfl
+  exact name_core s _ _
 
 theorem smpStep_name (c : Prop) [Decidable c] (o : Option Xtra) (s : Sample) :
     (if c then (match o with | some x => (epilogueSmp s x).1 | none => s) else s).name = s.name := by
